@@ -57,6 +57,46 @@ pub fn generate_fresh(seed: u64, tier: &str, out: &mut dyn std::io::Write) {
 
 pub fn generate(seed: u64, tier: &str, out: &mut dyn std::io::Write) {
     generate_fresh(seed, tier, out);
+    // reads of more than a thousand pages in one request (readable throughout): every strategy returns all of it
+    for big in 0..(if tier == "thorough" { 3 } else { 1 }) {
+        let mut r = Rng::for_case(seed, 1717, big);
+        let t = match Target::spawn(&["-r".to_string(), "4400000:r".to_string()]) {
+            Ok(t) => t,
+            Err(_) => continue,
+        };
+        let attached = minidump_writer::ptrace_dumper::PtraceDumper::suspend_thread(t.pid).is_ok();
+        let reg = &t.desc["regions"][0];
+        let (addr, len) = (reg["addr"].as_u64().unwrap(), reg["len"].as_u64().unwrap());
+        let start = addr + *r.pick(&[0u64, 3, 4096, 4099]);
+        let n = *r.pick(&[4194304u64 + 1, 4194304 + 4096 + 100, 4300000]);
+        let n = n.min(addr + len - start);
+        for strat in ["v", "f", "p", "a"] {
+            if strat == "p" && !attached {
+                continue;
+            }
+            let mut mr = match strat {
+                "v" => MemReader::for_virtual_mem(t.pid),
+                "a" => MemReader::new(t.pid),
+                "f" => match MemReader::for_file(t.pid) { Ok(m) => m, Err(_) => continue },
+                _ => MemReader::for_ptrace(t.pid),
+            };
+            let res = mr.read_to_vec(start as usize, NonZeroUsize::new(n as usize).unwrap());
+            let (result, sum) = match res {
+                Ok(v) => {
+                    let mut h: u64 = 0xcbf29ce484222325;
+                    for b in &v {
+                        h = (h ^ *b as u64).wrapping_mul(0x100000001b3);
+                    }
+                    (format!("ok:{}", v.len()), h)
+                }
+                Err(_) => ("err".to_string(), 0),
+            };
+            writeln!(out, "C17 b{}-{}-{} kind=bigread strat={} src={} len={} region={}:{}:r page={} result={} sum={}", seed, big, strat, strat, start, n, addr, len, t.page, result, sum).unwrap();
+        }
+        if attached {
+            let _ = minidump_writer::ptrace_dumper::PtraceDumper::resume_thread(t.pid);
+        }
+    }
     let rounds = if tier == "thorough" { 12 } else { 2 };
     for round in 0..rounds {
         let mut r = Rng::for_case(seed, 17, round);
